@@ -63,7 +63,28 @@ def default_pred(facts, caller, cb, fn):
     return keep_pred()(facts, caller, cb, fn)
 
 
-def _splice(state, bi, cb, arg_assigns, dest, target, cu):
+def _const_generics(x, cmap):
+    """replace uses of the callee's const generic parameters by the values the call instantiates them with"""
+    if isinstance(x, list):
+        return [_const_generics(y, cmap) for y in x]
+    if not isinstance(x, dict):
+        return x
+    if x.get("k") == "const" and "v" not in x and x.get("s") in cmap:
+        y = dict(x)
+        y["v"] = cmap[x["s"]]
+        return y
+    out = {}
+    for k, v in x.items():
+        if k == "n" and isinstance(v, str) and v in cmap and x.get("k") == "repeat":
+            out[k] = cmap[v]
+        elif k in ("span", "fn_span", "fn"):
+            out[k] = v
+        else:
+            out[k] = _const_generics(v, cmap)
+    return out
+
+
+def _splice(state, bi, cb, arg_assigns, dest, target, cu, cmap=None):
     """append the blocks of `cb` to state, wire block bi into them; arg_assigns = statements that initialise the callee's
     parameter locals, written against callee-local numbering 1.. (they get the offset added here)"""
     blocks, locals_, promoted, vars_ = state["blocks"], state["locals"], state["promoted"], state["vars"]
@@ -81,6 +102,8 @@ def _splice(state, bi, cb, arg_assigns, dest, target, cu):
             vars_.append(v2)
     stack = blk["inl_stack"] + [cb.did]
     for ci, cblk in enumerate(cb.j["blocks"]):
+        if cmap:
+            cblk = _const_generics(cblk, cmap)
         nb = {"cleanup": cblk["cleanup"], "stmts": _remap(cblk["stmts"], loff, boff, poff, cu), "origin": cb.did, "orig_bb": ci, "inl_stack": stack}
         ct = cblk["term"]
         if ct["k"] == "return":
@@ -123,7 +146,15 @@ def _direct_pass(facts, body, state, work, depth, pred):
         if cb.arg_count != len(t["args"]) or not pred(facts, body, cb, fn):
             continue
         assigns = [(1 + i, {"k": "use", "op": a}) for i, a in enumerate(t["args"])]
-        work.extend(_splice(state, bi, cb, assigns, t["dest"], t.get("target"), t.get("unwind")))
+        # const generic arguments of this instantiation (`helper::<.., 8>`)
+        cmap = {}
+        gen = [g for g in (facts.fns_by_did.get(cb.did) or {}).get("generics", []) if not g.startswith("'")]
+        targs = [a for a in (fn.get("args") or []) if not str(a).startswith("'")]
+        if gen and len(gen) == len(targs):
+            for g, a in zip(gen, targs):
+                if str(a).lstrip("-").isdigit():
+                    cmap[g] = int(a)
+        work.extend(_splice(state, bi, cb, assigns, t["dest"], t.get("target"), t.get("unwind"), cmap or None))
         changed = True
     return changed
 
@@ -144,18 +175,25 @@ def _closure_pass(facts, body, state, depth):
         if t["k"] != "call" or blk["cleanup"]:
             continue
         fn = callee(t)
-        if fn is None or fn.get("res") is not None or fn.get("path") not in FN_TRAITS or len(t["args"]) != 2:
+        if fn is None or fn.get("path") not in FN_TRAITS or len(t["args"]) != 2:
             continue
         if len(blk["inl_stack"]) > depth + 1:
             continue
-        c = eb.operand(t["args"][0], (bi, len(blk["stmts"])))
-        by_ref = 0
-        while isinstance(c, tuple) and c and c[0] in ("ref", "deref"):
-            by_ref += 1 if c[0] == "ref" else -1
-            c = c[1]
-        if not (isinstance(c, tuple) and c and c[0] == "closure" and c[1] is not None):
-            continue
-        cb = facts.by_did.get(c[1])
+        r = fn.get("res")
+        if r is not None:
+            # the compiler already resolved the call to a closure of this crate (`(|| ..)()`)
+            cb0 = facts.by_did.get(r.get("did")) if r.get("local") else None
+            if cb0 is None or cb0.kind != "closure":
+                continue
+            cdid = cb0.did
+        else:
+            c = eb.operand(t["args"][0], (bi, len(blk["stmts"])))
+            while isinstance(c, tuple) and c and c[0] in ("ref", "deref"):
+                c = c[1]
+            if not (isinstance(c, tuple) and c and c[0] == "closure" and c[1] is not None):
+                continue
+            cdid = c[1]
+        cb = facts.by_did.get(cdid)
         if cb is None or cb.did in blk["inl_stack"] or len(cb.blocks) > 120:
             continue
         todo.append((bi, cb))
@@ -204,8 +242,6 @@ def inlined(facts, body, depth=3, pred=None):
     work = list(range(len(blocks)))
     for _round in range(4):
         _direct_pass(facts, body, state, work, depth, pred)
-        if not state["spliced"]:
-            break           # closures are only chased inside views that inlined a helper (stable views otherwise)
         work = _closure_pass(facts, body, state, depth)
         if not work:
             break
